@@ -426,6 +426,11 @@ fn _parse_file_path(path: &str, git_diff_name: bool) -> String {
     // When git config 'core.quotepath = true' (the default), and `path` contains
     // non-ASCII characters, a backslash, or a quote; then it is quoted, so remove
     // these quotes. Characters may also be escaped, but these are left as-is.
+    // (If the name contains a space as well, the tab described below follows the closing quote.)
+    let path = match path.strip_suffix('\t') {
+        Some(quoted) if quoted.len() > 1 && quoted.starts_with('"') && quoted.ends_with('"') => quoted,
+        _ => path,
+    };
     let path = remove_surrounding_quotes(path);
     // It appears that, if the file name contains a space, git appends a tab
     // character in the diff metadata lines, e.g.
